@@ -18,13 +18,18 @@ COQ_FILES = ["FA/Proofs/LambdaFinderProofs.v", "FA/Proofs/LambdaFinderLayouts.v"
 
 LEVEL = ("Coq theorems over a token-level executable model of util_ast's source recovery (find_identifier, tokens_till, "
          "_get_lambda_in_stream, the backing-up loop, grouping by the preceding NAME, caller/argument filters, multiplicity "
-         "errors, def branch) with the fixes F15/F15b: finder_never_picks_neighbour (whatever is returned is the passed "
-         "lambda, for every token stream in which the passed lambda is not written inside another lambda), "
-         "finder_raises_when_ambiguous, lambda_never_def / def_never_lambda, finder_total, and "
-         "finder_supported_layouts_partial (a logical line made of call segments is recovered); the pinned commit's "
-         "selection is kept and refuted in Coq (F15, F15b witnesses).  PARTIAL: CPython's tokenizer, untokenize+ast.parse "
-         "of an extent, inspect.findsource/getsource and co_firstlineno are inputs of the model, tied to the code by exact "
-         "differential comparison on generated source files only.")
+         "errors, def branch) with the fixes F15/F15b.  Safety: finder_never_picks_neighbour (whatever is returned is the "
+         "passed lambda, for every token stream in which the passed lambda is not written inside another lambda), "
+         "lambda_never_def, def_never_lambda, def_exact / def_found_only_own_return (a function's outcome depends only on its "
+         "own source), finder_raises_when_ambiguous, finder_total.  Liveness: finder_layout_outcome (outcome on every "
+         "call-segment stream = the three filters over its segments) with corollaries finder_supported_layouts_partial, "
+         "finder_ambiguous_layout_raises (exactly 'multiple'), finder_uncalled_raises (a lambda that is not the first "
+         "argument raises), def_supported; nested_brackets_balanced + finder_recognised_layouts (a syntactic recogniser - "
+         "token classes and real bracket nesting - implies the liveness hypotheses).  The pinned commit's selection is kept "
+         "and refuted in Coq (F15, F15b).  PARTIAL: CPython's tokenizer (per start row), untokenize+ast.parse of an extent, "
+         "inspect.findsource/getsource and co_firstlineno are inputs of the model; that a source text of a given shape "
+         "tokenizes to a recognised stream is checked by evaluation on every generated case (recogniser cut at the lambda "
+         "extents CPython's own parser reports), not proved.")
 TRUSTED = ["Coq 8.16.1 kernel (coqc); no axioms (Print Assumptions: closed under the global context)",
            "extraction: ExtrOcamlBasic + ExtrOcamlNativeString; ocaml/driver_finder.ml token codec",
            "harness/props/finder_common.py: layout generator, CPython-side inputs of the model (tokenize streams, "
@@ -240,6 +245,37 @@ def model_answers(ctx, items: List[Item]):
         if a.startswith("FAIL") or a.startswith("BADCMD"):
             raise core.MachineryError("driver layout: " + a[:200])
         it.layout = a
+    # the syntactic recogniser, cut at the lambda extents CPython's own parser reports (ast end positions)
+    rrows, ritems = [], []
+    for it in live:
+        it.layout_ast = None
+        if it.s is None or it.k0 is None or not it.probe.is_lam:
+            continue
+        st = it.probe.streams[it.s]
+        cl = fc.ast_chain(st, fc.ast_lambda_ends(it.path, it.probe.lines))
+        if not cl or not any(a == it.k0 for a, _ in cl):
+            continue
+        have = set(e.rsplit(".", 1)[0] for e in it.ptab.split(";") if e)
+        extra = ["%d.%d.%d.%s" % (it.s, a, b, st.parse_extent(a, b)) for a, b in cl if "%d.%d.%d" % (it.s, a, b) not in have]
+        rrows.append([it.probe.enc_streams(), str(it.s), ";".join("%d.%d" % ab for ab in cl), str(it.k0),
+                      str(it.probe.l0 + 1), fc.hx(it.op), ",".join(fc.hx(a) for a in it.probe.args),
+                      ";".join([e for e in [it.ptab] + extra if e])])
+        ritems.append(it)
+    for it, a in zip(ritems, ctx.driver.call("layout", rrows)):
+        if a.startswith("FAIL") or a.startswith("BADCMD"):
+            raise core.MachineryError("driver layout(ast): " + a[:200])
+        it.layout_ast = a
+    # the def branch: does def_supported apply
+    drows, ditems = [], []
+    for it in live:
+        it.deflayout = None
+        if not it.probe.is_lam and it.probe.streams:
+            drows.append([it.probe.streams[0].enc, it.probe.dsrc])
+            ditems.append(it)
+    for it, a in zip(ditems, ctx.driver.call("deflayout", drows)):
+        if a.startswith("FAIL") or a.startswith("BADCMD"):
+            raise core.MachineryError("driver deflayout: " + a[:200])
+        it.deflayout = a
     hans = ctx.driver.call("hyps", hrows)
     for it in live:
         it.hyps = None
@@ -335,15 +371,34 @@ def judge(ctx, it: Item):
     # ---- the supported-layout theorem on this case
     lay = getattr(it, "layout", None)
     if it.case is not None and it.case.kind == "lambda":
-        bits = lay.split(" ")[0] if lay else "none"
+        bits = lay.split(" ")[0][:3] if lay else "none"
         ctx.count("supported-layout theorem applies (decomposition/backs up/supported_layoutb)" +
                   (" [documented]" if it.case.supported else " [other]"), bits)
+        la = getattr(it, "layout_ast", None)
+        abits = la.split(" ")[0] if la else "none"
+        ctx.count("recogniser at CPython-ast extents (decomposition/backs up/supported_layoutb/recognisedb)" +
+                  (" [documented]" if it.case.supported else " [other]"), abits)
+        if it.case.supported and abits != "1111":
+            ctx.count("documented label not recognised", it.case.family)
+        if la and abits[:2] == "11" and abits[3] == "1":
+            pred = int(la.split(" ")[1])
+            if it.model != "Found %d %d" % (it.s, pred) or pred != it.k0:
+                ctx.fail("no-failing-input-found",
+                         "theorem finder_recognised_layouts contradicted by the extracted model (%s, predicted %d) on:\n%s"
+                         % (it.model, pred, it.src), dict(it.witness(), correspondence="recogniser-theorem"))
         if lay and bits == "111":
             pred = int(lay.split(" ")[1])
             if it.model != "Found %d %d" % (it.s, pred) or pred != it.k0:
                 ctx.fail("no-failing-input-found",
                          "theorem finder_supported_layouts_partial contradicted by the extracted model (%s, predicted %d) on:\n%s"
                          % (it.model, pred, it.src), dict(it.witness(), correspondence="liveness-theorem"))
+    if it.case is not None and it.case.kind == "def" and getattr(it, "deflayout", None) is not None:
+        ctx.count("def_supported applies (def_layoutb)" + (" [documented]" if it.case.supported else " [other]"), it.deflayout)
+        if it.case.supported and it.deflayout != "1":
+            ctx.count("documented label not recognised", it.case.family)
+        if it.deflayout == "1" and it.model != "FoundDef":
+            ctx.fail("no-failing-input-found", "theorem def_supported contradicted by the extracted model (%s) on:\n%s"
+                     % (it.model, it.src), dict(it.witness(), correspondence="def-theorem"))
     # ---- the theorems' hypotheses on this case
     if it.hyps is not None:
         ctx.count("hypotheses rows_ok/lambda_at/not_nested", it.hyps)
@@ -398,6 +453,7 @@ def run(ctx):
                     shown += 1
             done += len(files)
             fc._stream_cache.clear()
+            fc._ends_cache.clear()
             shutil.rmtree(WORK, ignore_errors=True)
         ctx.notes.append("%d generated files" % n_files)
     finally:
